@@ -32,6 +32,17 @@ def jalali_items(tier):
                     items.append(("jalali", to_persian_digits("%04d/%02d/%02d" % (y, mi, d)), y, mi,
                                   d, None))
                     items.append(("jalali", "%04d-%02d-%02d 19:47" % (y, mi, d), y, mi, d, (19, 47)))
+                    if d in (1, L):
+                        pm0 = months[mi - 1][1][2][0]
+                        # spelled-out clock times (with and without seconds), Latin and Persian digits;
+                        # numeric dates with one-digit month / day
+                        t1 = "%d %s %d \u0633\u0627\u0639\u062a 11 \u0648 01 \u062f\u0642\u06cc\u0642\u0647 \u0648 47 \u062b\u0627\u0646\u06cc\u0647" % (d, pm0, y)
+                        t2 = "%d %s %d \u0633\u0627\u0639\u062a 19:47" % (d, pm0, y)
+                        for t, clk in ((t1, (11, 1, 47)), (t2, (19, 47))):
+                            items.append(("jalali", t, y, mi, d, clk))
+                            items.append(("jalali", to_persian_digits(t), y, mi, d, clk))
+                        items.append(("jalali", "%d/%d/%d" % (y, mi, d), y, mi, d, None))
+                        items.append(("jalali", to_persian_digits("%d/%d/%d 9:05" % (y, mi, d)), y, mi, d, (9, 5)))
                     for pers in months[mi - 1][1][2]:
                         items.append(("jalali", "%d %s %d" % (d, pers, y), y, mi, d, None))
                         items.append(("jalali", to_persian_digits("%d %s %d" % (d, pers, y)), y, mi,
@@ -54,6 +65,9 @@ def hijri_items(tier):
             for d in (range(1, L + 1) if tier == "thorough" else sorted(x for x in {1, 2, 15, 29, L} if x <= L)):
                 items.append(("hijri", "%04d-%02d-%02d" % (y, m, d), y, m, d, None))
                 items.append(("hijri", "%04d/%02d/%02d 09:05" % (y, m, d), y, m, d, (9, 5)))
+                if d in (1, L):
+                    items.append(("hijri", "%d-%d-%d" % (y, m, d), y, m, d, None))
+                    items.append(("hijri", "%d/%d/%d 09:40" % (y, m, d), y, m, d, (9, 40)))
     return items
 
 
